@@ -25,6 +25,10 @@ QUERIES = [
  Query('decode', 'dfcc', U.unit_scriptnum, 'h_decode', enforce='w_scriptnum_decode', cfile='contracts/scriptnum.c', defines=['VERIF_ITEM_CAP=16'], unwind=20, timeout=300, replay=RP(args_decode), functions=F[1:3]),
  Query('getint', 'dfcc', U.unit_scriptnum, 'h_getint', enforce='w_scriptnum_getint', cfile='contracts/scriptnum.c', defines=['VERIF_ITEM_CAP=16'], unwind=20, timeout=300, replay=RP(args_getint), functions=F[3:4]),
  Query('roundtrip', 'dfcc', U.unit_scriptnum, 'h_roundtrip', enforce='w_scriptnum_roundtrip', cfile='contracts/scriptnum.c', defines=['VERIF_ITEM_CAP=16'], unwind=20, timeout=300, replay=RP(args_roundtrip), functions=[F[0], F[1], F[2], F[4]]),
+]
+from props import units_enc as UE
+QUERIES += [
+ Query('value_int', 'harness', UE.unit_enc, 'h_value_int', defines=['VERIF_ITEM_CAP=16', 'VERIF_SCRIPT_CAP=26'], unwind=30, timeout=600, object_bits=10, functions=['value.h: Value::int_value', 'value.h: Value::data_value (T_INT)']),
  Query('lemma_unique', 'c', None, 'h_lemma_unique', cfile='contracts/lemma_scriptnum.c', unwind=12, timeout=600),
  Query('lemma_range', 'c', None, 'h_lemma_range', cfile='contracts/lemma_scriptnum.c', unwind=12, timeout=300),
 ]
@@ -39,7 +43,7 @@ META = {
 }
 MANIFEST = {
  'text': 'Deductive proof, for all 2^64 integers and all byte strings of length 0..8 (any operand-size limit <= 8, both minimality modes), that the real CScriptNum::serialize / constructor / set_vch / getint meet their function contracts: serialize yields the unique minimal sign-magnitude encoding, decoding yields the denoted value, non-minimal or over-long strings raise exactly the prescribed failure, decode(serialize(x)) = x; uniqueness of minimal encodings is a lemma over the spec. Tests can only sample this space.',
- 'note': 'Trusted: CBMC 6.11 (C++ front end, dfcc), the slicer, stubs/verif_std.h model of std::vector, the spec in contracts/spec_scriptnum.h. Value::hex_str/int_value (value.h) delegate to these members; that delegation is checked under C07.',
+ 'note': 'Trusted: CBMC 6.11 (C++ front end, dfcc), the slicer, stubs/verif_std.h model of std::vector, the spec in contracts/spec_scriptnum.h. Value::int_value / data_value (the conversions behind integer literals, tf int, tf hex) are proved to be this codec; the hex PRINTING (HexStr: constexpr lookup table, std::string) is outside reach.',
  'technique': 'CBMC function contracts (__CPROVER_requires/ensures/assigns) enforced with goto-instrument --dfcc on the real CScriptNum code sliced from script/script.h; full-width symbolic inputs, loops unwound to operand width with unwinding assertions',
  'design_ref': 'DESIGN.md 6 (C18)',
 }
